@@ -1863,6 +1863,8 @@ fn tie_mode_alpe(song: &mut Song) {
         event.v2 = last_pos - event.time;
         trk!(song).events.push(event);
     }
+    // the group is written: forget it (otherwise it is written again with every later note)
+    trk!(song).tie_notes.clear();
 }
 
 fn check_tie_notes(song: &mut Song) {
